@@ -188,6 +188,9 @@ func c13Model(c *hx.Ctx, r *hx.RNG) {
 			p = maxI(prec, 1)
 		}
 		le := int64(r.Range(-8, 25))
+		if ft != 'f' && r.Chance(8) { // the top (bottom) decade of the exponent range: a carry out of the rounding leaves it
+			le = []int64{oracle.MaxExp, oracle.MaxExp, oracle.MaxExp - 1, oracle.MinExp, oracle.MinExp + 1}[r.Intn(5)]
+		}
 		if ft == 'f' {
 			if r.Chance(40) {
 				le = -int64(prec) - int64(r.Range(0, 3)) // the last printed place is at or above the leading digit
@@ -198,6 +201,9 @@ func c13Model(c *hx.Ctx, r *hx.RNG) {
 			d := r.RoundAimed(p)
 			v = oracle.Val{Form: oracle.Finite, Neg: r.Bool(), Coef: hx.CoefOf(d), Exp: le - int64(len(d))}
 			cls = "aimed-at-position"
+			if le >= oracle.MaxExp-1 || le <= oracle.MinExp+1 {
+				cls = "aimed-at-position-range-end"
+			}
 		} else {
 			// the whole value lies below the last printed place: 0 or one unit
 			d := r.Digits(r.Range(1, 30))
@@ -340,7 +346,8 @@ func expectPB(v oracle.Val, ft byte, prec int64) string {
 
 var _ = decimal.MaxExp
 
-// carryPastMaxExp is the predicate of known finding D27: x's leading digit sits at
+// carryPastMaxExp is the predicate of D27 (repaired by f6f5f29; the entry in known_findings.json is 'fixed' and suppresses
+// nothing: a violation tagged with this predicate is reported like any other): x's leading digit sits at
 // MaxExp and rounding at the requested position carries into 10^MaxExp, a value the
 // library cannot hold in the temporary it rounds into (it prints a zero instead).
 func carryPastMaxExp(v oracle.Val, mode int, ft byte, prec int) string {
